@@ -325,6 +325,28 @@ class BASE_MAKE_CONTEXT:
 
 # ------------------------------------------------------------------------------------ lemmas
 
+@lemma("C18_cost_strict_stage_reaches_nested_dataclasses", props=["C18"],
+       cases={"any": dict(outer=Rec("RuntimeContext", options=Rec("Options", override=FALSE, no_data_loss=TRUE, no_explicit_cast=TRUE)),
+                          parser=Rec("ClassParser", options=Rec("Options", override=FALSE)))})
+def _cost_chain(outer, parser):
+    """C18 (cost), the step that keeps the work polynomial.  A union makes up to three passes over its arguments
+    (contract of logical_parse, clause conversion_attempts_bounded); what keeps NESTED unions from multiplying that is
+    the guard of the strict stage: under a context that is already strict a union makes ONE pass.  For the total work
+    to stay polynomial in the nesting depth, a value converted inside the strict stage must therefore be parsed under
+    strict options all the way down.  Element / key / branch contexts inherit the options (RuntimeContext.enter); a
+    nested data class starts the context of its own level from its OWN options (ClassParser.make_context): the
+    assertion below -- the nested level is still strict -- is what would be needed, and it does not hold: every
+    data-class level under default options re-opens all three stages, so one invalid leaf under n levels of
+    Optional['N'] costs (3^n - 1) / 2 conversions (findings/C18_exponential_union_cost.py)."""
+    branch = call("utype/parser/options.py", "RuntimeContext.enter", outer, "|")
+    assert branch.options.no_data_loss and branch.options.no_explicit_cast, "a_branch_context_inherits_the_strict_stage"
+    try:
+        nested = call("utype/parser/cls.py", "ClassParser.make_context", parser, branch)
+    except DepthExceedError:
+        return
+    assert nested.options.no_data_loss and nested.options.no_explicit_cast, "a_nested_dataclass_level_stays_in_the_strict_stage"
+
+
 @lemma("C18_depth_counts_dataclass_levels_only", props=["C18"],
        cases={"limit": dict(root=Rec("RuntimeContext", options=Rec("Options", max_depth=POS)), i=INT, s=STR,
                             parser=Rec("ClassParser", options=Rec("Options", override=FALSE, max_depth=POS))),
